@@ -103,7 +103,7 @@ Lemma step_nl T s :
   | c :: ob' =>
     if c =? 45 then set_flags (set_bufs s ob' (linebuf_rev s)) true (dWord s)
     else inc_line (set_bufs (append_to_doc T true (note_amp s)
-                                           (flush_buf T (obuf_rev s) :: linebuf_rev s)) [] [])
+                                           (flush_buf T true (obuf_rev s) :: linebuf_rev s)) [] [])
   | [] => inc_line (set_bufs (append_to_doc T true s (linebuf_rev s)) [] [])
   end.
 Proof.
@@ -128,8 +128,8 @@ Lemma step_not_nl T s r :
       if dEOL s then s
       else if dWord s then
              inc_line (set_flags (set_bufs (append_to_doc T true (note_amp s)
-                                    (flush_buf T (obuf_rev s) :: linebuf_rev s)) [] []) false false)
-           else set_bufs (note_amp s) [] (flush_buf T (obuf_rev s) :: linebuf_rev s)
+                                    (flush_buf T true (obuf_rev s) :: linebuf_rev s)) [] []) false false)
+           else set_bufs (note_amp s) [] (flush_buf T true (obuf_rev s) :: linebuf_rev s)
     else
       let s1 := if dEOL s then set_flags s false true else s in
       match punct_map T r with
@@ -582,7 +582,7 @@ Lemma finish_eq s :
   append_to_doc T true (note_amp s)
                 (match obuf_rev s with
                  | [] => linebuf_rev s
-                 | _ :: _ => flush_buf T (obuf_rev s) :: linebuf_rev s
+                 | _ :: _ => flush_buf T true (obuf_rev s) :: linebuf_rev s
                  end).
 Proof. unfold finish. rewrite note_amp_obuf, note_amp_linebuf. reflexivity. Qed.
 
@@ -726,7 +726,7 @@ Qed.
 Definition line_words (T : tables) (s : tstate) : list word :=
   rev (match obuf_rev s with
        | [] => linebuf_rev s
-       | _ :: _ => flush_buf T (obuf_rev s) :: linebuf_rev s
+       | _ :: _ => flush_buf T true (obuf_rev s) :: linebuf_rev s
        end).
 
 Lemma ignorable_nil : ignorable [] = false.
